@@ -126,6 +126,11 @@ func (m *c04machine) run(ops []c04op, check bool) (hash.Hash, int) {
 					m.r.Violation("sm3:Write-modifies-input", "Write changed its input slice", c04case{m.fam, ops})
 				}
 			}
+			// the caller reuses its buffer as soon as Write has returned (the read-into-buffer / Write loop of io.Copy): a
+			// Write must have consumed the bytes, not remembered where they were
+			for j := range data {
+				data[j] = ^data[j] ^ 0x5a
+			}
 		case "S":
 			var p []byte
 			switch op.N {
